@@ -127,6 +127,28 @@ func runProps(props []string, tier, repo, verif string, verbose bool) (code int)
 				code = fail(pr, "no rules registered for property")
 				return
 			}
+			if p386 != nil {
+				// thorough: the same rules on the GOARCH=386 build (32-bit uint/int, build-tagged files);
+				// obligations that agree with the primary run are counted once, differing ones are added
+				c2 := core.NewCtx(p386, pr, tier)
+				rules.Run(c2)
+				prim := map[string]core.Status{}
+				for _, o := range c.Obs {
+					prim[o.Key] = o.Status
+				}
+				same, diff := 0, 0
+				for _, o := range c2.Obs {
+					if st, ok := prim[o.Key]; ok && st == o.Status {
+						same++
+						continue
+					}
+					diff++
+					o.Key += "[GOARCH=386]"
+					o.What += " (GOARCH=386)"
+					c.Obs = append(c.Obs, o)
+				}
+				c.Extra["goarch_386"] = map[string]int{"obligations_agreeing_with_amd64": same, "obligations_differing": diff}
+			}
 			res := c.Finish(verif, known, seed(), t0)
 			if verbose {
 				for _, o := range c.Obs {
